@@ -106,3 +106,9 @@ Print Assumptions C20_sessions_rows_constant_within_user.
 Print Assumptions C20_sessions_data_explodes_users_data.
 Print Assumptions C20_sessions_data_row_count.
 Print Assumptions C20_rounding.
+
+(* non-vacuity: the default parameters of make_users_data lie in the domain the theorems quantify over, and a concrete
+   draw satisfies the in-contract predicate of the table theorems *)
+Example C20_defaults_are_valid : ds_valid 1 0 (1/10) (1/10) 2 (1/4) 10 = true.
+Proof. exact defaults_valid. Qed.
+Print Assumptions C20_defaults_are_valid.
